@@ -1173,9 +1173,8 @@ def child_run(job: dict) -> dict:
                 gc.collect()
             faults["clear_cache"] += 1
         elif kind == "bump":
-            cur = id_generator._ids.get(op["prefix"], 0)  # pylint: disable=protected-access
-            if op["to"] > cur:  # forward only
-                id_generator._ids[op["prefix"]] = op["to"]  # pylint: disable=protected-access
+            from .observe import COUNTERS  # pylint: disable=import-outside-toplevel
+            if COUNTERS.jump(op["prefix"], op["to"]):  # forward only
                 faults["bump"] += 1
         elif kind == "fresh":
             _fresh(world, op)
